@@ -214,7 +214,143 @@ def apply_action(mod, act, env, lib):
             k = act["k"]
             return x[..., ::-1][..., :k] if k > 0 else x[..., : -k]
         return mod.topk(X(), act["k"])
+    if a == "RechunkSpec":
+        if lib == "np":
+            return X()
+        return X().rechunk(rechunk_spec(act), balance=bool(act["balance"]))
+    if a == "MapBlocks":
+        ax = act["axis"] - 1
+        x = X()
+        if lib == "np":
+            shp = [1] * x.ndim
+            shp[ax] = x.shape[ax]
+            return (x.astype(np.int64) if x.dtype == bool else x) + np.arange(x.shape[ax]).reshape(shp)
+        fn = make_blockfn(ax, act["use"], tuple(tuple(c) for c in x.chunks), x.ndim)
+        out = x.map_blocks(fn, dtype=np.int64 if x.dtype == bool else x.dtype)
+        out._verif_blockfn = fn
+        return out
+    if a == "MaskSelect":
+        x = X()
+        return x[x > act["thresh"]]
+    if a == "Persist":
+        if lib == "np":
+            return X()
+        import dask
+
+        e = act["entry"]
+        if e == "x.persist":
+            return X().persist(scheduler="sync")
+        if e == "dask.persist":
+            return dask.persist(X(), scheduler="sync")[0]
+        if e == "dask.optimize":
+            return dask.optimize(X())[0]
+        if e == "x.optimize":
+            return X().optimize()
+        raise KeyError(e)
     raise KeyError(a)
+
+
+def _sval(v, kind):
+    if kind == "f":
+        return v[0] / v[1]
+    return bool(v) if kind == "b" else int(v)
+
+
+def rechunk_spec(act):
+    def one(e):
+        return {"int": lambda: int(e["v"]), "full": lambda: -1, "keep": lambda: None, "auto": lambda: "auto"}[e["k"]]()
+
+    spec = [one(e) for e in act["spec"]]
+    if act["form"] == "scalar":
+        return spec[0]
+    if act["form"] == "dict":
+        return {i: v for i, v in enumerate(spec) if v is not None}
+    return tuple(spec)
+
+
+def make_blockfn(ax, use, chunks_at_call, ndim):
+    """block function for the MapBlocks action: adds to every element its global position along `ax`, derived from the
+    block_info / block_id it is GIVEN (never from anything else), and logs every invocation."""
+    calls = []
+
+    def start_from_id(block_id):
+        return int(sum(chunks_at_call[ax][: block_id[ax]]))
+
+    def body(block, block_info, block_id):
+        rec = {"shape": [int(v) for v in np.shape(block)]}
+        start = None
+        if block_info is not None:
+            bi = block_info[0]
+            rec["info"] = {"chunk_location": [int(v) for v in bi["chunk-location"]],
+                           "array_location": [[int(lo), int(hi)] for lo, hi in bi["array-location"]],
+                           "chunk_shape": [int(v) for v in bi["chunk-shape"]] if "chunk-shape" in bi else [], "num_chunks": [int(v) for v in bi["num-chunks"]],
+                           "shape": [int(v) for v in bi["shape"]]}
+            start = int(bi["array-location"][ax][0])
+        if block_id is not None:
+            rec["block_id"] = [int(v) for v in block_id]
+            if start is None:
+                start = start_from_id(block_id)
+        calls.append(rec)
+        shp = [1] * ndim
+        shp[ax] = np.shape(block)[ax]
+        b = block.astype(np.int64) if block.dtype == bool else block
+        return b + (np.arange(np.shape(block)[ax]) + start).reshape(shp)
+
+    if use == "block_info":
+        def fn(block, block_info=None):
+            return body(block, block_info, None)
+    elif use == "block_id":
+        def fn(block, block_id=None):
+            return body(block, None, block_id)
+    else:
+        def fn(block, block_info=None, block_id=None):
+            return body(block, block_info, block_id)
+    fn.calls = calls
+    fn.chunks_at_call = chunks_at_call
+    return fn
+
+
+def apply_inplace(act, env, lib, np_env=None):
+    """In-place actions.  lib 'da': mutates env[x-1] (the collection object) and returns it;
+    lib 'np': returns the new array (NumPy copy semantics: derived arrays are never views here)."""
+    a = act["a"]
+    t = env[act["x"] - 1]
+    kind = kind_of(t.dtype)
+    if lib == "da" and MUTANT == "inplace-noop":   # negative control of the binding (never set in a real run)
+        return t
+    if a == "SetItem":
+        v = _sval(act["scalar"], kind) if act["vkind"] == "scalar" else env[act["y"] - 1]
+        if lib == "np":
+            out = np.array(t, copy=True)
+            out[py_index(act["idx"])] = v
+            return out
+        t[py_index(act["idx"])] = v
+        return t
+    if a == "MaskSet":
+        v = _sval(act["scalar"], kind)
+        if lib == "np":
+            out = np.array(t, copy=True)
+            out[out > act["thresh"]] = v
+            return out
+        mask = (t > act["thresh"]) if act["masklib"] == "da" else (np.asarray(np_env[act["x"] - 1]) > act["thresh"])
+        t[mask] = v
+        return t
+    if a == "OutUfunc":
+        other = env[act["y"] - 1] if act["y"] else act["scalar"]
+        f = np.add if act["op"] == "add" else np.multiply
+        if lib == "np":
+            return f(t, other)
+        f(t, other, out=t)
+        return t
+    if a == "ComputeChunkSizes":
+        if lib == "np":
+            return t
+        t.compute_chunk_sizes()
+        return t
+    raise KeyError(a)
+
+
+INPLACE = {"SetItem", "MaskSet", "OutUfunc", "ComputeChunkSizes"}
 
 
 # ------------------------------------------------------------------ behaviours
@@ -303,8 +439,9 @@ def replay_one(beh, grids, observers=(), compute_all=True, opts=None, emit=None)
     np_env, da_env = [], []
     problems = []
     gi = 0
+    cur = []        # handle -> expected current denotation (in-place actions replace an entry)
     ctx = {"prog": prog, "grids": [list(map(list, g)) for g in grids], "da_env": da_env, "np_env": np_env, "env": env,
-           "opts": opts or {}, "emit": emit if emit is not None else []}
+           "opts": opts or {}, "emit": emit if emit is not None else [], "cur": cur}
     last = len(prog) - 1
     last_only = bool((opts or {}).get("last_only"))
     for k, act in enumerate(prog):
@@ -315,22 +452,28 @@ def replay_one(beh, grids, observers=(), compute_all=True, opts=None, emit=None)
             if not same_values(arr, want, exp["kind"]):
                 raise SpecMismatch(f"source data differs from spec: {act}")
             np_env.append(arr)
+            cur.append(exp)
             g = tuple(tuple(c) for c in grids[gi])
             gi += 1
-            d = da.from_array(arr.copy(), chunks=g)
+            user_src = arr.copy()       # the array "the user passed in": must never change (C10, C11)
+            ctx.setdefault("np_src", []).append(user_src)
+            d = da.from_array(user_src, chunks=g)
             da_env.append(d)
             if not last_only:
                 for ob in observers:
                     ob(ctx, k, act, d, arr, problems)
             continue
         expect_err = exp["kind"] == "err"
+        inplace = act["a"] in INPLACE
         n0 = len(problems)
         # ---- NumPy (second oracle)
         np_err = None
         try:
             with warnings.catch_warnings():
                 warnings.simplefilter("ignore")
-                nv = apply_action(np, act, np_env, "np")
+                nv = apply_inplace(act, np_env, "np") if inplace else apply_action(np, act, np_env, "np")
+                if isinstance(nv, np.ndarray) and nv.base is not None:
+                    nv = nv.copy()      # the specification has copy semantics: no NumPy views between handles
         except Exception as ex:  # noqa
             np_err = ex
             nv = None
@@ -342,22 +485,43 @@ def replay_one(beh, grids, observers=(), compute_all=True, opts=None, emit=None)
                     or kind_of(np.asarray(nv).dtype) != exp["kind"]:
                 raise SpecMismatch(
                     f"spec and NumPy disagree on {act}: spec {exp['kind']} {want!r} vs numpy {np.asarray(nv)!r}")
-        np_env.append(nv)
+        np_before = list(np_env)
+        if inplace:
+            np_env[act["out"] - 1] = nv
+            cur[act["out"] - 1] = exp
+        else:
+            np_env.append(nv)
+            cur.append(exp)
         # ---- dask_array
         d = None
         d_err = None
         got = None
+        if inplace:
+            # an in-place operation that the library refuses at assignment time is a decline, not a violation
+            try:
+                with warnings.catch_warnings():
+                    warnings.simplefilter("ignore")
+                    d = apply_inplace(act, da_env, "da", np_before)
+            except Exception as ex:  # noqa
+                problems.append(("declined", f"action {k}: {type(ex).__name__}: {ex}"))
+                break
         try:
             with warnings.catch_warnings():
                 warnings.simplefilter("ignore")
-                d = apply_action(da, act, da_env, "da")
+                if not inplace:
+                    d = apply_action(da, act, da_env, "da")
+                    if any(d is o for o in da_env):
+                        # identity operations (x[:], rechunk to the same chunks) return the very same object; the
+                        # specification's handles are distinct collection objects, as after the user's x.copy()
+                        d = d.copy()
                 if compute_all or expect_err:
                     got = d.compute(scheduler="sync")
         except NotImplementedError as ex:
             d_err = ex
         except Exception as ex:  # noqa
             d_err = ex
-        da_env.append(d if d_err is None else None)
+        if not inplace:
+            da_env.append(d if d_err is None else None)
         if expect_err:
             # Only indexing is required to raise (C12); where NumPy has no result for another
             # operation the properties say nothing about what dask_array returns.
@@ -392,7 +556,7 @@ def replay_one(beh, grids, observers=(), compute_all=True, opts=None, emit=None)
             if len(problems) > n0:
                 # later expectations would be built on a handle that is already wrong
                 break
-        if act["a"] == "Rechunk":
+        if act["a"] == "Rechunk" and d is not None:
             wantc = tuple(tuple(c) for c in act["chunks"])
             if tuple(d.chunks) != wantc:
                 problems.append(("rechunk-chunks", f"action {k}: rechunk({wantc}) advertises {d.chunks}"))
@@ -537,7 +701,7 @@ class _CachedResult:
 
 
 def generate_programs(acts, maxlen, preset, *, sim, num=None, seed=0, smax=3, idxpad=2, emit_all=False, rundir=None,
-                      timeout=900, depth=None, lean=False, workers=1, excl=(), cache=True, acts2=()):
+                      timeout=900, depth=None, lean=False, workers=1, excl=(), cache=True, acts2=(), observe_all=False):
     """Behaviours of ArrayProgram.tla for one configuration.  The output depends only on the specification
     and the configuration, so it is cached under /verif/.cache keyed by their content hash (nothing that touches
     /repo is ever cached)."""
